@@ -754,3 +754,6 @@ PROPS["C12"]["also_drivers"] = ["C06"]
 # of C01 never drops the Ring before a future, C12's driver does (its oracle: no state box or
 # buffer is released while the simulated kernel has the request in flight; seed C01-f).
 PROPS["C01"]["also_drivers"] = PROPS["C01"]["also_drivers"] + ["C12"]
+# C13 delegates the bytes of socket addresses and the (pointer, length) pairs of buffers to C16 and
+# C14: their drivers run with C13's check too.
+PROPS["C13"]["also_drivers"] = PROPS["C13"]["also_drivers"] + ["C16", "C14"]
